@@ -9,6 +9,8 @@
 #           as job JSON, compared at the configuration the front ends build (QPDFJob::Members dump) and, where that differs,
 #           end to end: the non-commuting pairs (DESIGN §6 D12) are found mechanically; pairs not in known_findings.json are reported.
 #   model   (part 'front') the extracted front-end model against the configuration dump of the real front ends.
+#   spec    (harness/c19_spec.py) the extracted SPECIFICATION of jobs over every option table (Sys/JobSpecX.v: denotation, argv and
+#           JSON renderings) against both real front ends and the real Config API: the jobs the refinement theorems quantify over.
 #   cwd-*   the hand-written positional / nested handlers in working directories that contain entries named like every kind of word a
 #           handler may expect next (page ranges, '--', option words, passwords, key lengths), inputs named like page ranges:
 #           cwd-cfg (argv vs job JSON at the configuration dump), cwd-front (model given the directory's names vs implementation),
@@ -1289,7 +1291,11 @@ def part_front(chk, T, runner, jobs):
                {"inputFile": "A.pdf", "outputFile": "out.pdf", "overlay": {"file": "O.pdf"}, "rotate": "+90", "addAttachment": {"file": "att.txt"}},
                {"pages": [{"file": "B.pdf"}], "inputFile": "A.pdf", "outputFile": "out.pdf"}, "x", [], {"encrypt": {"Bits": "x"}}):
         cases.append(("json", jv, False))
-    for w in (["--version"], ["--help"], ["--qdf"], ["A.pdf"], [], ["--show-crypto", "x"], ["--", "A.pdf", "--", "out.pdf"], ["-", "out.pdf"]):
+    for w in (["--version"], ["--help"], ["--qdf"], ["A.pdf"], [], ["--show-crypto", "x"], ["--", "A.pdf", "--", "out.pdf"], ["-", "out.pdf"],
+              # theorem encrypt_password_memory: a later --encrypt without password options is given the passwords of the earlier one
+              ["A.pdf", "out.pdf", "--encrypt", "--user-password=u1", "--owner-password=o1", "--bits=256", "--", "--encrypt", "--bits=128", "--"],
+              ["A.pdf", "out.pdf", "--encrypt", "--bits=256", "--"], ["A.pdf", "out.pdf", "--encrypt", "--owner-password=o", "--bits=256", "--"],
+              ["A.pdf", "out.pdf", "--encrypt", "u", "o", "256", "--", "--encrypt", "--bits=128", "--"]):
         cases.append(("argv", w))
     files = ",".join(hexs(f) for f in POOL)
     mlines = []
@@ -1673,6 +1679,11 @@ def run(chk):
                        "pairs: every unordered pair of main-option instances (and of options inside each encryption table) in both command-line orders, "
                        "compared at the configuration dump, differing pairs confirmed end to end; non-trivial = distinct non-commuting pair. "
                        "cfg: the option sets of e2e plus a larger random stream, argv against job JSON at the configuration dump of the real front ends. "
+                       "spec: jobs over every nested table (0-3 blocks per table, every option x acceptable/unacceptable value, the file word at every "
+                       "position of an attachment block, page selections anywhere in the job, look-alike words) plus the option sets of cfg, each rendered by "
+                       "the EXTRACTED specification (Sys/JobSpecX.v) as argv (positional and --file= spelling; --encrypt also dashed) and as job JSON; "
+                       "initializeFromArgv, initializeFromJson and the denotation's calls replayed through the real Config API must give the same "
+                       "configuration dump / usage error; non-trivial = distinct job the denotation's calls accept or reject at the Config layer. "
                        "cwd-*: jobs around every hand-written positional / nested handler of QPDFJob_argv.cc (--pages file [--password=] [range], --encrypt "
                        "positional and named, --overlay/--underlay, --add-attachment, --copy-attachments-from, --rotate, --split-pages, --collate, positional "
                        "input/output) whose words are drawn from every kind of word the handler may expect next (page ranges of each form, '.', '--', option "
@@ -1686,12 +1697,18 @@ def run(chk):
     t1 = time.time()
     part_cwd(chk, T, runner)
     t2 = time.time()
-    part_front(chk, T, runner, jobs)
+    import sys, c19_spec
+    # the jobs aimed at the nested handlers (every table, 0-3 blocks, file word at every position) also go through the
+    # model/implementation correspondence, so that 'front' covers every handler the refinement theorems quantify over
+    aimed = c19_spec.aimed_jobs(sys.modules[__name__], T, chk.rng)
+    part_front(chk, T, runner, jobs + aimed)
     t3 = time.time()
+    c19_spec.part_spec(chk, sys.modules[__name__], T, runner, jobs, aimed)
+    t3b = time.time()
     part_pairs(chk, T, runner)
     t4 = time.time()
     part_e2e(chk, T, runner, pending)
-    chk.cov["part_wall_s"] = {"cfg": round(t1 - t0, 1), "cwd": round(t2 - t1, 1), "front": round(t3 - t2, 1), "pairs": round(t4 - t3, 1), "e2e": round(time.time() - t4, 1)}
+    chk.cov["part_wall_s"] = {"cfg": round(t1 - t0, 1), "cwd": round(t2 - t1, 1), "front": round(t3 - t2, 1), "spec": round(t3b - t3, 1), "pairs": round(t4 - t3b, 1), "e2e": round(time.time() - t4, 1)}
     shutil.rmtree(os.path.join(wd, "r"), ignore_errors=True)
 
 
@@ -1739,6 +1756,9 @@ def replay(chk, rep):
         except ValueError:
             jj = None
     fl = rep.get("cwd_flavour", "plain")
+    if rep.get("part") == "spec":
+        import sys, c19_spec
+        return c19_spec.replay_spec(sys.modules[__name__], chk, rep, runner)
     if rep.get("part") == "cwd-cfg":
         d = new_rundir(wd, pool, "replay", fl)
         outs = common.run_lines("env --chdir=%s %s" % (d, drv), ["cfg_argv " + " ".join(hexs(a) for a in rep["argv"]), "cfg_json " + hexs(json.dumps(job))])
